@@ -67,6 +67,22 @@ CLAIMS['C16'] = dict(
          'forwarder\'s mutex; no MT-unsafe libc call. Over-approximates schedules (all) and inputs (all code).',
     design='3/C16', note='Field-level, not alias-level: races through raw pointer aliasing into shared objects, libstdc++ internals and the mutex implementation are not decided. Virtual calls fan out to all overriders except classes constructed only in the process executor (verified per run).')
 
+CLAIMS['C13'] = dict(
+    technique='static analysis: may-throw effect analysis over the whole-program call graph with handler-type matching at every call site (explicit throws + std::sto* pseudo-throws)',
+    text='Decides the exception-containment clause: no exception raised by cppcheck\'s own code (96 origin sites: throw expressions in lib/cli/externals '
+         'headers and std::sto* calls) can propagate out of main(); the per-file entry handles the repo\'s exception vocabulary; throws in lib/ stay '
+         'inside it. On the pinned tree the rule exposed six reachable aborts (bad -D macro, polyspace comment, --suppress-xml, library .cfg attributes, '
+         'compile database / GUI project values, whole-program addon output), each replayed and repaired by a fix: commit. 21 origin contexts are '
+         'listed as not decided (no failing input known) and 12 as value-guarded, each with its reason.',
+    design='3/C13', note='Only the exception channel: memory safety, UB and termination are run-time properties. .at()/substr/new are deliberately not modelled. Contexts below CppCheck::getErrorMessages are treated as input independent.')
+CLAIMS['C34'] = dict(
+    technique='static analysis: picojson is<T>()/get<T>() dominance, exception containment per calling context, and structural relay checks (id composition, severity-filter dominance, receiver) on CppCheck::executeAddons',
+    text='Decides that ill-typed addon output cannot escape as an uncaught exception on the per-file or whole-program path, that a relayed finding\'s '
+         'id is <addon>-<errorId>, message/severity/location come from the addon\'s fields, a finding of a disabled severity is dropped unless it is an '
+         'explicitly enabled premium id, the finding goes through the suppression-aware CppCheck::mErrorLogger, and summaries are accumulated and '
+         'handed to the whole-program call. The whole-program crash of the pinned tree was replayed and repaired (fix: commit).',
+    design='3/C34', note='Field-by-field fidelity for well-formed output and the behaviour of the addon process itself are not decided.')
+
 NOT_APPLICABLE = {
     'C01': 'soundness of inferred values vs. concrete executions of arbitrary programs; needs an executing/symbolic oracle, no structural necessary condition in valueflow.cpp',
     'C02': 'same as C01, for container sizes',
